@@ -29,7 +29,7 @@ COMPONENTS = {
     "real": ["canopen.emcy (EmcyConsumer, EmcyProducer, EmcyError, EMCY_STRUCT)", "RemoteNode/LocalNode wiring", "canopen.Network"],
     "stub": ["CAN backend (SimBus)", "can.Notifier", "threading.Condition and time inside canopen.emcy (virtual clock)"],
 }
-PROBES = ["reset-frame", "reset-frame-xxFF", "producer-roundtrip", "callback", "consumer-reset", "wait-returned", "wait-none", "wait-filtered", "wait-filter-zero", "waiters-served"]
+PROBES = ["reset-frame", "reset-frame-xxFF", "producer-roundtrip", "callback", "consumer-reset", "wait-returned", "wait-none", "wait-filtered", "wait-filter-zero", "waiters-served", "other-traffic"]
 
 CLASSES = ((0x0000, 0xFF00, "Error Reset / No Error"), (0x1000, 0xFF00, "Generic Error"), (0x2000, 0xF000, "Current"),
            (0x3000, 0xF000, "Voltage"), (0x4000, 0xF000, "Temperature"), (0x5000, 0xFF00, "Device Hardware"),
@@ -160,6 +160,31 @@ def _frame(ctx, w, via):
     if e.get_desc() != ref_desc(code):
         ctx.violation("C16/description", "code 0x%04X is described as %r, CiA 301 class: %r" % (code, e.get_desc(), ref_desc(code)))
     ctx.cover(("frame", via, code >> 12, code & 0xFF00 == 0, min(len(w.active), 3), dup))
+
+
+def _other_traffic(ctx, w):
+    """A frame of the same device (or of a neighbour) that is not an emergency frame of the consumer's node: the
+    node's boot-up message or heartbeat, an NMT command, one of its SDO responses or PDOs, SYNC, the EMCY frame of
+    another node.  Log, active list and callbacks follow the emergency frames only: nothing may change."""
+    k = ctx.choice(7, "otherkind")
+    other = 1 + (w.nid + ctx.choice(126, "othernode")) % 127
+    if other == w.nid:
+        other = 1 + w.nid % 127
+    cid, data = (
+        (0x700 + w.nid, b"\x00"),                                            # boot-up message (the device restarted)
+        (0x700 + w.nid, bytes([(4, 5, 127, 0x85)[ctx.choice(4, "hbstate")]])),  # heartbeat
+        (0x000, bytes([(1, 2, 128, 129, 130)[ctx.choice(5, "cs")], (w.nid, 0)[ctx.choice(2, "bc")]])),
+        (0x580 + w.nid, bytes([0x60, 0x17, 0x10, 0, 0, 0, 0, 0])),
+        (0x180 + w.nid, bytes([1, 2, 3, 4, 5, 6, 7, 8])),
+        (0x080, b""),                                                         # SYNC
+        (0x080 + other, bytes([0x10, 0x81, 1, 1, 2, 3, 4, 5])),               # emergency of another node
+    )[k]
+    ctx.op("other traffic %03X#%s" % (cid, data.hex()))
+    w.raw.send(cid, data)
+    ctx.run_for(2 * MS)
+    ctx.probe("other-traffic")
+    _compare(ctx, w, "after the unrelated frame %03X#%s" % (cid, data.hex()))
+    ctx.cover(("other", k, min(len(w.active), 3)))
 
 
 def _wait(ctx, w):
@@ -403,9 +428,11 @@ def scenario(ctx):
     n = 1 + ctx.choice(200 if ctx.choice(5, "long") == 0 else 25, "nsteps")
     for i in range(n):
         with ctx.span("step"):
-            op = ctx.weighted(((10, "raw"), (4, "producer"), (2, "callback"), (1, "reset"), (3, "wait")), "op")
+            op = ctx.weighted(((10, "raw"), (4, "producer"), (2, "callback"), (1, "reset"), (3, "wait"), (3, "other")), "op")
             if op in ("raw", "producer"):
                 _frame(ctx, w, op)
+            elif op == "other":
+                _other_traffic(ctx, w)
             elif op == "callback":
                 if len(w.cbs) < 4:
                     seen = []
